@@ -53,6 +53,12 @@ def ordTest (x : Ext) (rel : Num → Num → Bool) (l : Lit) (v : FieldValue) : 
   | Option.some m, Option.some n => .ok (rel n m)
   | _, _ => .err
 
+/-- `&=`: both are integers and every bit of the literal is set in the field -/
+def bitTest (lit field : Num) : Res :=
+  match intOf lit, intOf field with
+  | Option.some a, Option.some b => .ok (allBitsSet a b)
+  | _, _ => .err
+
 /-- the meaning of `field op literal` on the addressed field's value (`none` = the field is missing) -/
 def fieldTest (x : Ext) (op : MOp) (l : Lit) (v? : Option FieldValue) : Res :=
   match v? with
@@ -83,10 +89,7 @@ def fieldTest (x : Ext) (op : MOp) (l : Lit) (v? : Option FieldValue) : Res :=
       | _ => .err
     | .flag =>
       match M.numParse x.fparse (litText l), fieldNum x v with
-      | Option.some m, Option.some n =>
-        match intOf m, intOf n with
-        | Option.some a, Option.some b => .ok (allBitsSet a b)
-        | _, _ => .err
+      | Option.some m, Option.some n => bitTest m n
       | _, _ => .err
 
 /-- `== @.other`: both fields present and carrying equal values -/
